@@ -1,9 +1,257 @@
 import Okane.Drv.IOUtil
-/-! Driver commands for C17 (stub: replaced when the property's streams are built). -/
-namespace Okane.Drv.C17
+import Okane.Spec.Import
+/-!
+Driver for C17.
 
-def main (args : List String) : IO Unit := do
-  let _ := args
-  pure ()
+`drv c17 select` — line: `(case <file-path> (<doc>...))` → `(some <entry>)` | `(none)` | `(err select <Kind>)`
+`drv c17 rules`  — line: `(case (<rule>...) (<rec>...) (<tab>...))` →
+      `(ok (frags <frag>...) (given <frag>))` : every fragment the fold can produce over all iteration orders of the
+      field maps (sorted text order, deduplicated), and the one for the order as written; or `(table-incomplete <pat> <text>)`.
+
+Forms (text atoms percent-encoded):
+  conv   := (conv extract|compute <opt text> sec|pri 0|1)
+  fm     := ((<field-name> <pattern>)...)
+  matcher:= (or <fm>...) | (field <fm>)
+  rule   := (rule <matcher> 0|1 <opt payee> <opt account> <opt conv>)
+  format := (format <date> ((<commodity> <precision>)...) ((<key> (i N)|(l text)|(t text))...) <delimiter> <skip> o2n|n2o)
+  ccfg   := (prim <text>) | (spec <text> <conv>)
+  doc    := (doc <path> <opt encoding> <opt account> <opt a|l> <opt operator> <opt ccfg> <opt format> (<rule>...))
+  entry  := (entry <path> <encoding> <account> a|l <opt operator> (spec <text> <conv>) <format> (<rule>...))
+  rec    := (<field-name> P <opt text>) | (<field-name> T 0|1 <opt text>) | (<field-name> C <opt text>)
+  tab    := (<pattern> <text> n) | (<pattern> <text> (m <opt payee> <opt code>))
+  frag   := (frag 0|1 <opt payee> <opt account> <opt code> <opt conv>)
+where `<opt x>` is `()` or `(x)`.  Maps are printed sorted by key.
+-/
+namespace Okane.Drv.C17
+open Okane Okane.Import Sexp
+
+def decOpt {α} (f : Sexp → Option α) : Sexp → Option (Option α)
+  | .list [] => some none
+  | .list [x] => (f x).map some
+  | _ => none
+
+def encOpt {α} (f : α → Sexp) : Option α → Sexp
+  | none => .list []
+  | some x => .list [f x]
+
+def decBool : Sexp → Option Bool
+  | .atom "0" => some false
+  | .atom "1" => some true
+  | _ => none
+
+def encBool (b : Bool) : Sexp := .atom (if b then "1" else "0")
+
+def decConv : Sexp → Option Conversion
+  | .list [.atom "conv", a, c, r, d] => do
+    let a ← match a with | .atom "extract" => some ConvAmountMode.extract | .atom "compute" => some .compute | _ => none
+    let c ← decOpt Sexp.str? c
+    let r ← match r with | .atom "sec" => some ConvRateMode.priceOfSecondary | .atom "pri" => some .priceOfPrimary | _ => none
+    let d ← decBool d
+    pure ⟨a, c, r, d⟩
+  | _ => none
+
+def encConv (c : Conversion) : Sexp :=
+  tagged "conv" [.atom (match c.amount with | .extract => "extract" | .compute => "compute"),
+    encOpt mkStr c.commodity, .atom (match c.rate with | .priceOfSecondary => "sec" | .priceOfPrimary => "pri"),
+    encBool c.disabled]
+
+def decFM : Sexp → Option FieldMatcher
+  | .list xs => do
+    let fs ← xs.mapM fun
+      | .list [.atom f, p] => do
+        let f ← Field.ofName? f; let p ← p.str?
+        pure (f, p)
+      | _ => none
+    pure ⟨fs⟩
+  | _ => none
+
+def sortBy {α} (key : α → String) (xs : List α) : List α := xs.mergeSort (fun a b => decide (key a ≤ key b))
+
+def encFM (m : FieldMatcher) : Sexp :=
+  .list ((sortBy (fun (fp : Field × String) => fp.1.name) m.fields).map fun fp => .list [.atom fp.1.name, mkStr fp.2])
+
+def decMatcher : Sexp → Option Matcher
+  | .list (.atom "or" :: ms) => (ms.mapM decFM).map .or
+  | .list [.atom "field", m] => (decFM m).map .field
+  | _ => none
+
+def encMatcher : Matcher → Sexp
+  | .or ms => tagged "or" (ms.map encFM)
+  | .field m => tagged "field" [encFM m]
+
+def decRule : Sexp → Option Rule
+  | .list [.atom "rule", m, p, py, ac, cv] => do
+    let m ← decMatcher m; let p ← decBool p
+    let py ← decOpt Sexp.str? py; let ac ← decOpt Sexp.str? ac; let cv ← decOpt decConv cv
+    pure ⟨m, p, py, ac, cv⟩
+  | _ => none
+
+def encRule (r : Rule) : Sexp :=
+  tagged "rule" [encMatcher r.matcher, encBool r.pending, encOpt mkStr r.payee, encOpt mkStr r.account,
+    encOpt encConv r.conversion]
+
+def decPos : Sexp → Option FieldPos
+  | .list [.atom "i", n] => n.nat?.map .index
+  | .list [.atom "l", s] => s.str?.map .label
+  | .list [.atom "t", s] => s.str?.map .template
+  | _ => none
+
+def encPos : FieldPos → Sexp
+  | .index n => tagged "i" [mkNat n]
+  | .label s => tagged "l" [mkStr s]
+  | .template s => tagged "t" [mkStr s]
+
+def decFormat : Sexp → Option FormatSpec
+  | .list [.atom "format", d, .list cs, .list fs, dl, sk, ro] => do
+    let d ← d.str?
+    let cs ← cs.mapM fun
+      | .list [c, n] => do let c ← c.str?; let n ← n.nat?; pure (c, n)
+      | _ => none
+    let fs ← fs.mapM fun
+      | .list [.atom k, p] => do let k ← FieldKey.ofName? k; let p ← decPos p; pure (k, p)
+      | _ => none
+    let dl ← dl.str?; let sk ← sk.int?
+    let ro ← match ro with | .atom "o2n" => some RowOrder.oldToNew | .atom "n2o" => some .newToOld | _ => none
+    pure ⟨d, cs, fs, dl, sk, ro⟩
+  | _ => none
+
+def encFormat (f : FormatSpec) : Sexp :=
+  tagged "format" [mkStr f.date,
+    .list ((sortBy (fun (kv : String × Nat) => kv.1) f.commodity).map fun kv => .list [mkStr kv.1, mkNat kv.2]),
+    .list ((sortBy (fun (kv : FieldKey × FieldPos) => kv.1.name) f.fields).map fun kv => .list [.atom kv.1.name, encPos kv.2]),
+    mkStr f.delimiter, mkInt f.skipHead, .atom (match f.rowOrder with | .oldToNew => "o2n" | .newToOld => "n2o")]
+
+def decCCfg : Sexp → Option CommodityConfig
+  | .list [.atom "prim", s] => s.str?.map .primaryCommodity
+  | .list [.atom "spec", s, c] => do let s ← s.str?; let c ← decConv c; pure (.spec ⟨s, c⟩)
+  | _ => none
+
+def decAT : Sexp → Option AccountType
+  | .atom "a" => some .asset
+  | .atom "l" => some .liability
+  | _ => none
+
+def decDoc : Sexp → Option ConfigFragment
+  | .list [.atom "doc", p, e, a, t, o, c, f, .list rs] => do
+    let p ← p.str?; let e ← decOpt Sexp.str? e; let a ← decOpt Sexp.str? a; let t ← decOpt decAT t
+    let o ← decOpt Sexp.str? o; let c ← decOpt decCCfg c; let f ← decOpt decFormat f; let rs ← rs.mapM decRule
+    pure ⟨p, e, a, t, o, c, f, rs⟩
+  | _ => none
+
+def encEntry (e : ConfigEntry) : Sexp :=
+  tagged "entry" [mkStr e.path, mkStr e.encoding, mkStr e.account,
+    .atom (match e.accountType with | .asset => "a" | .liability => "l"), encOpt mkStr e.operator,
+    tagged "spec" [mkStr e.commodity.primary, encConv e.commodity.conversion], encFormat e.format,
+    .list (e.rewrite.map encRule)]
+
+def selectStep (line : String) : String :=
+  match Sexp.parse line with
+  | some (.list [.atom "case", p, .list ds]) =>
+    match p.str?, ds.mapM decDoc with
+    | some path, some docs =>
+      match select docs path with
+      | .ok none => "(none)"
+      | .ok (some e) => (tagged "some" [encEntry e]).toStr
+      | .err e => s!"(err select {e.kind})"
+      | _ => "(crash)"
+    | _, _ => "(bad-case)"
+  | _ => "(bad-case)"
+
+/-! ## rules -/
+
+def decRec (xs : List Sexp) : Option (List (Field × FieldKind)) :=
+  xs.mapM fun
+    | .list [.atom f, .atom "P", v] => do let f ← Field.ofName? f; let v ← decOpt Sexp.str? v; pure (f, .payee v)
+    | .list [.atom f, .atom "T", k, v] => do
+      let f ← Field.ofName? f; let k ← decBool k; let v ← decOpt Sexp.str? v; pure (f, .text v k)
+    | .list [.atom f, .atom "C", v] => do let f ← Field.ofName? f; let v ← decOpt Sexp.str? v; pure (f, .code v)
+    | _ => none
+
+def mkRecord (kinds : List (Field × FieldKind)) : Record := fun f =>
+  match kinds.find? (fun kv => kv.1 == f) with
+  | some kv => kv.2
+  | none => .text none true
+
+abbrev Table := List ((String × String) × Option Matched)
+
+def decTab (xs : List Sexp) : Option Table :=
+  xs.mapM fun
+    | .list [p, h, .atom "n"] => do let p ← p.str?; let h ← h.str?; pure ((p, h), none)
+    | .list [p, h, .list [.atom "m", py, cd]] => do
+      let p ← p.str?; let h ← h.str?; let py ← decOpt Sexp.str? py; let cd ← decOpt Sexp.str? cd
+      pure ((p, h), some ⟨py, cd⟩)
+    | _ => none
+
+/-- the regex engine's verdicts as handed over by the harness -/
+def tableCaptures (t : Table) : Captures := fun pat hay =>
+  match t.find? (fun e => e.1.1 == pat && e.1.2 == hay) with
+  | some e => e.2
+  | none => none
+
+def encFrag (f : Fragment) : Sexp :=
+  tagged "frag" [encBool f.cleared, encOpt mkStr f.payee, encOpt mkStr f.account, encOpt mkStr f.code,
+    encOpt encConv f.conversion]
+
+def dedup {α} [BEq α] (xs : List α) : List α := xs.foldl (fun acc x => if acc.contains x then acc else acc ++ [x]) []
+
+/-- all orders of a list -/
+def perms {α} : List α → List (List α)
+  | [] => [[]]
+  | x :: xs => (perms xs).flatMap fun p => (List.range (p.length + 1)).map fun i => p.take i ++ x :: p.drop i
+
+/-- what one field matcher can return over all iteration orders of its map -/
+def andSet (cap : Captures) (r : Record) (m : FieldMatcher) (cur : Fragment) : List (Option Fragment) :=
+  dedup ((perms m.fields).map fun fs => andExtract cap r fs cur)
+
+/-- what an OR-list can return: each element has its own map, hence its own order -/
+def orSet (cap : Captures) (r : Record) : List FieldMatcher → Fragment → List (Option Fragment)
+  | [], _ => [none]
+  | m :: rest, cur =>
+    let s := andSet cap r m cur
+    let somes := s.filter Option.isSome
+    if s.contains none then dedup (somes ++ orSet cap r rest cur) else somes
+
+def stepSet (cap : Captures) (r : Record) (frags : List Fragment) (rule : Rule) : List Fragment :=
+  dedup (frags.flatMap fun f =>
+    (orSet cap r rule.matcher.elements f).map fun
+      | some u => f.addAssign (ruleFinish rule u)
+      | none => f)
+
+def extractSet (cap : Captures) (rules : List Rule) (r : Record) : List Fragment :=
+  rules.foldl (stepSet cap r) [{}]
+
+/-- the first (pattern, text) pair the fold could look at that the table does not decide -/
+def tableGap (rules : List Rule) (kinds : List (Field × FieldKind)) (t : Table) : Option (String × String) :=
+  let r := mkRecord kinds
+  let pats := rules.flatMap fun rule => rule.matcher.elements.flatMap fun m =>
+    m.fields.filterMap fun fp => match r fp.1 with | .code _ => none | _ => some fp.2
+  let hays := kinds.filterMap (fun kv => match kv.2 with | .payee v => v | .text v _ => v | .code _ => none)
+    ++ rules.filterMap (·.payee)
+    ++ t.filterMap (fun e => e.2.bind (·.payee))
+  (pats.flatMap fun p => hays.map fun h => (p, h)).find? fun ph => !(t.any fun e => e.1.1 == ph.1 && e.1.2 == ph.2)
+
+def rulesStep (line : String) : String :=
+  match Sexp.parse line with
+  | some (.list [.atom "case", .list rs, .list rec, .list tab]) =>
+    match rs.mapM decRule, decRec rec, decTab tab with
+    | some rules, some kinds, some table =>
+      match tableGap rules kinds table with
+      | some (p, h) => s!"(table-incomplete {Sexp.encode p} {Sexp.encode h})"
+      | none =>
+        let cap := tableCaptures table
+        let r := mkRecord kinds
+        let all := (extractSet cap rules r).map fun f => (encFrag f).toStr
+        let all := all.mergeSort (fun a b => decide (a ≤ b))
+        let given := (encFrag (extract cap rules r)).toStr
+        let m := matching cap rules r
+        s!"(ok (frags {" ".intercalate all}) (given {given}) (matching {m.length}))"
+    | _, _, _ => "(bad-case)"
+  | _ => "(bad-case)"
+
+def main (args : List String) : IO Unit :=
+  match args with
+  | "select" :: _ => forEachLine selectStep
+  | "rules" :: _ => forEachLine rulesStep
+  | _ => forEachLine fun _ => "(bad-mode)"
 
 end Okane.Drv.C17
